@@ -1807,7 +1807,36 @@ func c14Histories(ctx *core.Ctx) []c14History {
 	hs = append(hs, c14History{"pages-seek-3/4", func(r io.ReaderAt, size int64, f *c14File) (string, string, error) {
 		return c14SeekPages(r, size, f, 3, 4)
 	}})
+	// the library's own consumers of a RowReader (CopyRows and everything built on copyRows:
+	// Writer.ReadRowsFrom, the row path of WriteRowGroup, Buffer, SortingWriter) end the copy on
+	// `errors.Is(err, io.EOF)`: an error that merely *wraps* io.EOF is the end of input for them
+	for _, fr := range [][2]int64{{1, 2}, {0, 1}} {
+		fr := fr
+		hs = append(hs, c14History{fmt.Sprintf("copyrows-seek-%d/%d", fr[0], fr[1]), func(r io.ReaderAt, size int64, f *c14File) (string, string, error) {
+			return c14SeekRowsVia(r, size, f, fr[0], fr[1], "copyrows")
+		}})
+	}
+	hs = append(hs, c14History{"readrowsfrom-seek-1/3", func(r io.ReaderAt, size int64, f *c14File) (string, string, error) {
+		return c14SeekRowsVia(r, size, f, 1, 3, "readrowsfrom")
+	}})
 	return hs
+}
+
+// c14Collector is the RowWriter the copy histories write to: it digests what it is given
+type c14Collector struct {
+	sb  *strings.Builder
+	got int64
+}
+
+func (c *c14Collector) WriteRows(rows []parquet.Row) (int, error) {
+	for _, row := range rows {
+		c.got++
+		for _, v := range row {
+			fmt.Fprintf(c.sb, "%d:%v,", v.Column(), gen.TripleOf(v))
+		}
+		c.sb.WriteByte(';')
+	}
+	return len(rows), nil
 }
 
 func c14SeekTarget(n, num, den int64) int64 {
@@ -1819,6 +1848,12 @@ func c14SeekTarget(n, num, den int64) int64 {
 }
 
 func c14SeekRows(r io.ReaderAt, size int64, f *c14File, num, den int64) (class, digest string, err error) {
+	return c14SeekRowsVia(r, size, f, num, den, "readrows")
+}
+
+// via: readrows = the caller's own ReadRows loop (ends on err == io.EOF); copyrows = parquet.CopyRows
+// into a collecting RowWriter; readrowsfrom = Writer.ReadRowsFrom into a scratch file that is read back
+func c14SeekRowsVia(r io.ReaderAt, size int64, f *c14File, num, den int64, via string) (class, digest string, err error) {
 	defer func() {
 		if p := recover(); p != nil {
 			class, err = "panic", fmt.Errorf("%v | %s", p, c14Stack())
@@ -1833,31 +1868,63 @@ func c14SeekRows(r io.ReaderAt, size int64, f *c14File, num, den int64) (class, 
 		n := rg.NumRows()
 		k := c14SeekTarget(n, num, den)
 		rows := rg.Rows()
-		if err := rows.SeekToRow(k); err != nil {
+		if num == 0 {
+			k = 0 // no seek at all: the sequential copy
+		} else if err := rows.SeekToRow(k); err != nil {
 			rows.Close()
 			return "read-error", "", err
 		}
 		got := int64(0)
-		buf := make([]parquet.Row, 16)
-		for {
-			m, err := rows.ReadRows(buf)
-			for _, row := range buf[:m] {
-				got++
-				for _, v := range row {
-					fmt.Fprintf(&sb, "%d:%v,", v.Column(), gen.TripleOf(v))
-				}
-				sb.WriteByte(';')
+		switch via {
+		case "copyrows":
+			coll := &c14Collector{sb: &sb}
+			if _, err := parquet.CopyRows(coll, rows); err != nil {
+				rows.Close()
+				return "read-error", "", err
 			}
-			if err == io.EOF {
-				break
+			got = coll.got
+		case "readrowsfrom":
+			var out bytes.Buffer
+			w := parquet.NewWriter(&out, pf.Schema())
+			_, err := w.ReadRowsFrom(rows)
+			if err == nil {
+				err = w.Close()
 			}
 			if err != nil {
 				rows.Close()
 				return "read-error", "", err
 			}
-			if m == 0 {
+			cols, nr, err := gen.ReadRowsColumns(out.Bytes(), 16)
+			if err != nil {
 				rows.Close()
-				return "read-error", "", fmt.Errorf("ReadRows returned 0 rows and no error")
+				return "altered", "", fmt.Errorf("the file written by ReadRowsFrom does not read back: %v", err)
+			}
+			got = int64(nr)
+			for ci, col := range cols {
+				fmt.Fprintf(&sb, "col%d:%v;", ci, col)
+			}
+		default:
+			buf := make([]parquet.Row, 16)
+			for {
+				m, err := rows.ReadRows(buf)
+				for _, row := range buf[:m] {
+					got++
+					for _, v := range row {
+						fmt.Fprintf(&sb, "%d:%v,", v.Column(), gen.TripleOf(v))
+					}
+					sb.WriteByte(';')
+				}
+				if err == io.EOF {
+					break
+				}
+				if err != nil {
+					rows.Close()
+					return "read-error", "", err
+				}
+				if m == 0 {
+					rows.Close()
+					return "read-error", "", fmt.Errorf("ReadRows returned 0 rows and no error")
+				}
 			}
 		}
 		rows.Close()
@@ -1979,6 +2046,9 @@ func c14ReadAtHistory(ctx *core.Ctx, f *c14File, h c14History, bounds []int64, s
 		// or between a page header and its body (the places where a premature io.EOF can look
 		// like the end of a column chunk or of a page)
 		cuts := []int{-1}
+		if ln > 1 {
+			cuts = append(cuts, 0) // (0, io.EOF) / (0, err): nothing delivered
+		}
 		if ln > 2 {
 			cuts = append(cuts, 1, ln-1)
 		}
